@@ -1253,6 +1253,10 @@ spec:
         r.is_some() ==> covered_by(final(block).toks(), r.unwrap()),      // [C05] key and value texts cover every letter and digit of the entry
         // [C07] at most one diagnostic is queued
         final(block).evs() == old(block).evs() || (final(block).evs().len() == old(block).evs().len() + 1 && (final(block).evs().last() is Warning || final(block).evs().last() is Error)),
+        // [C07] an entry with a blank key is an error, a blank value (with a key) a warning, anything else is silent
+        r.is_some() && r.unwrap()->key.blank() ==> final(block).evs().len() == old(block).evs().len() + 1 && final(block).evs().last() is Error,
+        r.is_some() && !r.unwrap()->key.blank() && r.unwrap()->value.blank() ==> final(block).evs().len() == old(block).evs().len() + 1 && final(block).evs().last() is Warning,
+        r.is_some() && !r.unwrap()->key.blank() && !r.unwrap()->value.blank() ==> final(block).evs() == old(block).evs(),
         only_diags(final(block).evs(), old(block).evs()),
 closure @ `|t| t == T![:]` `TokenKind` ret `b: bool`:
         ensures b == (t == TokenKind::Colon)
@@ -1390,7 +1394,7 @@ ret r
 spec:
     requires line.wf(), a.kind == TokenKind::Int, b.kind == TokenKind::Int,
         exists|i: int, j: int| 0 <= i <= j < line.toks().len() && line.toks()[i] == a && line.toks()[j] == b,
-    ensures r is Ok ==> r->Ok_0 is Fraction,
+    ensures r is Ok ==> r->Ok_0 is Fraction && r->Ok_0->den != 0 && r->Ok_0->whole == 0,     // [C07] a zero denominator is never accepted
         r is Err ==> r->Err_0.sev() == crate::error::Severity::Error,
 enter:
     proof {
@@ -1597,8 +1601,11 @@ spec:
     ensures final(bp).wf(), final(bp).same(old(bp)), final(bp).cur() == old(bp).cur(),
         // [C02] with the alias extension off nothing is checked or reported
         !old(bp).ext().has(Extensions::COMPONENT_ALIAS) ==> final(bp).evs() == old(bp).evs(),
-        // [C07] at most one error
+        // [C07] one error exactly when the extension is on and the name contains a `|`
         final(bp).evs() == old(bp).evs() || (final(bp).evs().len() == old(bp).evs().len() + 1 && final(bp).evs().last() is Error),
+        old(bp).ext().has(Extensions::COMPONENT_ALIAS) && (exists|i: int| 0 <= i < name_tokens@.len() && (#[trigger] name_tokens@[i]).kind == TokenKind::Or)
+            ==> final(bp).evs().len() == old(bp).evs().len() + 1 && final(bp).evs().last() is Error,
+        (forall|i: int| 0 <= i < name_tokens@.len() ==> (#[trigger] name_tokens@[i]).kind != TokenKind::Or) ==> final(bp).evs() == old(bp).evs(),
         only_diags(final(bp).evs(), old(bp).evs()),
 closure @ `|t| t.kind == T![|]` `&Token` ret `b: bool`:
         ensures b == (t.kind == TokenKind::Or)
